@@ -223,8 +223,8 @@ def forward_iteration(fn, loop):
     if n["k"] == "rangefor":
         return True
     if n["k"] == "for":
-        t = " ".join(fn.text(n[k]) for k in ("init", "c", "inc") if k in n)
-        return ".begin()" in t and "rbegin" not in t and "--" not in t
+        t = " ".join(fn.text(n[k]) for k in ("init", "c", "inc") if k in n) + " " + loop_header(fn, loop)
+        return (".begin()" in t or ".cbegin()" in t) and "rbegin" not in t and "--" not in t
     return False
 
 
@@ -297,9 +297,12 @@ class Expander:
     Locals holding closures keep their name.  Re-assigned locals render as
     var:<name> (the rule then has to look at the writes)."""
 
-    def __init__(self, prog, fn):
+    def __init__(self, prog, fn, mark_modified=False):
         from ..cfg import CondNorm
         self.prog, self.fn = prog, fn
+        # mark_modified: render a range-for variable that is written in the body as modified:elem(C) (rules about the VALUE of
+        # the element want this; rules about WHICH element is used do not)
+        self.mark_modified = mark_modified
         # locals (references included) bound once and never assigned afterwards
         from ..callgraph import node_writes
         inits, assigned, refs = {}, set(), set()
@@ -333,6 +336,7 @@ class Expander:
                 if t and t.startswith("L:"):
                     assigned.add(t[2:])
         self.single = {d: n for d, n in inits.items() if d not in assigned or d in refs}
+        self.assigned = assigned
         self.loopvars = {}
         for i in fn.all("rangefor"):
             n = fn.nodes[i]
@@ -385,7 +389,9 @@ class Expander:
         if d in self.loopvars:
             self._active.add(d)
             try:
-                return "elem(%s)" % self.fn.text(self.loopvars[d], 0, self._cb, self._ncb)
+                # a loop variable that is assigned or handed out by mutable reference in the body is no longer the element as stored
+                pre = "modified:" if (self.mark_modified and d in self.assigned) else ""
+                return pre + "elem(%s)" % self.fn.text(self.loopvars[d], 0, self._cb, self._ncb)
             finally:
                 self._active.discard(d)
         if d in self.single:
